@@ -26,6 +26,7 @@ Fails(e) ==
       [] e.op = "search" -> SearchFails(e)
       [] e.op = "maxrt" -> MaxRtFails(e)
       [] e.op = "rta" -> RtaFails(e)
+      [] e.op \in {"ros2_es", "ros2_timer", "ros2_pp", "ros2_chain", "ros2_rr", "ros2_bw"} -> Ros2Fails(e)
       [] e.op = "agree" -> AgreeFails(e)
       [] e.op = "agree_max" -> AgreeMaxFails(e)
       [] e.op = "cost_trace" -> CostTraceFails(e)
